@@ -6,7 +6,15 @@ package lib
 // VERIF_SEED / --seed, so a disagreement replays exactly.
 type RNG struct{ s uint64 }
 
-func NewRNG(seed uint64) *RNG { return &RNG{s: seed*0x9E3779B97F4A7C15 + 0x1234567} }
+func NewRNG(seed uint64) *RNG {
+	// scramble the seed (murmur3 finaliser) so that adjacent seeds give unrelated streams; a plain
+	// multiple of the SplitMix increment would make seed s+1 the stream of seed s shifted by one
+	z := seed + 0x1234567
+	z = (z ^ (z >> 33)) * 0xFF51AFD7ED558CCD
+	z = (z ^ (z >> 33)) * 0xC4CEB9FE1A85EC53
+	z ^= z >> 33
+	return &RNG{s: z}
+}
 
 func (r *RNG) Uint64() uint64 {
 	r.s += 0x9E3779B97F4A7C15
